@@ -122,6 +122,7 @@ func loadKnown(path string) []knownRec {
 
 type propMeta struct {
 	Explanation string
+	Added       string // rules added after the first version (second mutant round), part of the explanation
 	Assumptions []string
 	Declined    string
 }
@@ -219,7 +220,7 @@ func (c *Ctx) finish(meta propMeta, verifDir string, start time.Time, seed int, 
 		rules[k] = v
 	}
 	cov := map[string]interface{}{
-		"explanation":             meta.Explanation + " DECLINED (not decided by this check): " + meta.Declined,
+		"explanation":             strings.TrimSpace(meta.Explanation+" "+meta.Added) + " DECLINED (not decided by this check): " + meta.Declined,
 		"obligations":             len(c.Instances),
 		"discharged":              discharged,
 		"evaluations":             len(c.Instances),
